@@ -411,10 +411,11 @@ func load(repo, verifDir string, patterns []string) (*Eng, error) {
 }
 
 // qualifyKey turns a package-relative function name into the fnKey form:
-//   compare          -> packetmap.compare
-//   (*Map).Drop      -> (*packetmap.Map).Drop
-//   (Map).Foo        -> (packetmap.Map).Foo
-//   Keyframe$1       -> codecs.Keyframe$1
+//
+//	compare          -> packetmap.compare
+//	(*Map).Drop      -> (*packetmap.Map).Drop
+//	(Map).Foo        -> (packetmap.Map).Foo
+//	Keyframe$1       -> codecs.Keyframe$1
 func qualifyKey(pkg, k string) string {
 	rel := strings.TrimPrefix(pkg, modPath+"/")
 	if strings.HasPrefix(k, "(*") {
